@@ -3,6 +3,7 @@ package props
 import (
 	"encoding/json"
 	"fmt"
+	"google.golang.org/protobuf/proto"
 	"path/filepath"
 	"reflect"
 	"regexp"
@@ -1037,6 +1038,28 @@ func (x *c29X) explore() {
 					from = fresh
 				}
 				ch, err := x.call(from, a, vals)
+				if err == nil && a.Kind == "builder-key" {
+					// history oracle: resolving the builder node (an observation) BEFORE the key setter
+					// is called must not change what the node resolves to afterwards.
+					if alt, e2 := x.exec(st.chain); e2 == nil {
+						func() {
+							defer func() { recover() }()
+							ygot.ResolvePath(alt.node.Interface().(ygot.PathStruct))
+							x.reexec = true
+							ch2, e3 := x.call(alt, a, vals)
+							x.reexec = false
+							if e3 != nil {
+								return
+							}
+							p1, _, _ := ygot.ResolvePath(ch.node.Interface().(ygot.PathStruct))
+							p2, _, _ := ygot.ResolvePath(ch2.node.Interface().(ygot.PathStruct))
+							if !proto.Equal(p1, p2) {
+								x.viol(st, "resolve-history-dependent", a.Kind, fmt.Sprintf("%s(%v): resolving the node before the key setter changes the result: %v vs %v", a.Name, vals, p1, p2))
+							}
+						}()
+						x.reexec = false
+					}
+				}
 				if err != nil {
 					if strings.HasPrefix(err.Error(), "unbuildable:") {
 						x.outcomes["domain-value-not-buildable"]++
